@@ -143,6 +143,13 @@ func (e *C10) Run(c *core.Ctx, idx int) {
 		}
 		segs = append(segs, gen.ExifSeg(t))
 	}
+	if r.Chance(1, 6) {
+		// an APP1 segment that holds the Exif identifier and less than a TIFF header (0..7 bytes):
+		// no Exif block can be announced for it, and what follows it must be found all the same
+		stub := gen.ExifSeg([]byte("MM\x00*\x00\x00\x00\x08")[:r.Intn(8)])
+		stub.Kind = "other"
+		segs = append(segs, stub)
+	}
 	for i := 0; i < nXMP; i++ {
 		n := r.Range(0, 400)
 		if r.Chance(1, 6) {
